@@ -243,7 +243,15 @@ func (w *websocketPeer) Close() {
 	// Tell sendHandler to exit and discard any queued messages. Do not close
 	// wr channel in case there are incoming messages during close.
 	w.cancelSender()
-	<-w.writerDone
+	select {
+	case <-w.writerDone:
+	case <-time.After(ctrlTimeout):
+		// The sendHandler is blocked writing to a peer that has stopped
+		// reading, so it cannot see that it was told to exit. Closing the
+		// websocket makes that write fail.
+		_ = w.conn.Close()
+		<-w.writerDone
+	}
 	close(w.wr)
 	for range w.wr {
 	}
